@@ -79,8 +79,7 @@ impl<'t> Parser<'t> {
     //     steps as usize
     // }
 
-    // // GJL for debugging only
-    #[allow(dead_code)]
+    /// Ordinal number of the current token.
     pub(crate) fn position(&self) -> usize {
         self.pos
     }
